@@ -535,9 +535,11 @@ class UTPM(Ring, RawAlgorithmsMixIn):
         elif numpy.isscalar(rhs) or isinstance(rhs,numpy.ndarray):
             self.data[...] /= rhs
         else:
+            # align the coefficient axes of rhs with those of self
+            self_data, rhs_data = UTPM._broadcast_arrays(self.data, rhs.data)
             retval = self.clone()
             for d in range(D):
-                retval.data[d,:,...] = 1./ rhs.data[0,:,...] * ( self.data[d,:,...] - numpy.sum(retval.data[:d,:,...] * rhs.data[d:0:-1,:,...], axis=0))
+                retval.data[d,:,...] = 1./ rhs_data[0,:,...] * ( self_data[d,:,...] - numpy.sum(retval.data[:d,:,...] * rhs_data[d:0:-1,:,...], axis=0))
             self.data[...] = retval.data[...]
         return self
 
